@@ -1,31 +1,108 @@
 """C02: parsers are total — token-level obligations (E2).
 
-For every type with a struct-level decoder the engine can execute, the real `deserialize` MIR is run on adversarial
-token streams derived from a valid encoding: every proper prefix (truncation), every single-token substitution by a token
-of another kind (null, break, unsigned integer, byte string, text, empty array, empty map, tag), wrong declared lengths,
-indefinite length with and without the closing break, and trailing garbage.  The decoder must return (Ok or Err) on
-every path: a reachable panic, unwrap-on-error, failed assert or `unreachable!` is a violation.  Byte-level totality of
-the leaf decoders (numbers, addresses) is the E1 part (harnesses shared with C11 and C14)."""
+(a) Every `Deserialize` impl of the crate (enumerated from the current MIR, so new types are picked up) is executed on
+    adversarial CBOR token streams: a type-agnostic corpus (arrays / maps / tagged / indefinite shapes over concrete leaf
+    tokens, discriminant-led groups, every prefix = truncation) and, where the type's serializer can be executed, mutants of
+    its own valid encodings (truncation, single-token substitution, wrong declared lengths, indefinite with / without
+    break, trailing token).  The real decoder MIR runs over a token-level model of cbor_event's Deserializer; nested
+    decoders are opaque and adversarial (fail, or accept exactly one item) — each is an entry of its own, so the claim
+    composes by induction on nesting depth.  A reachable panic / failed assert / unwrap-on-error is a violation.
+(b) Every public text/bytes entry wrapper (from_hex, from_bytes, from_json, from_bech32, from_base58 found in the MIR) is
+    executed with the external decoders (hex, bech32, serde_json, base58) as uninterpreted functions returning Ok or Err.
+Byte-level totality of leaf decoders (numbers, addresses) is the E1 part (harnesses shared with C11 / C14)."""
+import json, os, re, subprocess, sys, time
+if __name__ == "__main__":
+    sys.path.insert(0, os.path.dirname(os.path.dirname(os.path.abspath(__file__))))
 import z3
 from engine import *
-from prove import Obligation
 import cbormodel as CM
 import valuemodel as VM
-from obl.c01 import MUST_COVER, indefinite_variant
 
 
 def R(v, name="tmp"):
     return VRef(Cell(v, name))
 
 
-COLLECTIONS = ["Vkeywitnesses", "BootstrapWitnesses", "TransactionInputs", "TransactionOutputs", "Certificates", "Ed25519KeyHashes", "Credentials", "VotingProposals",
-               "NativeScripts", "PlutusList", "Redeemers", "Relays", "RewardAddresses", "GenesisHashes", "ScriptHashes", "AssetNames", "TransactionBodies", "TransactionWitnessSets",
-               "Languages", "Vkeys", "PublicKeys", "Ipv4", "Ipv6", "URL", "DNSRecordAorAAAA", "DNSRecordSRV", "TransactionMetadatumLabels", "MetadataList", "Strings", "Voters", "GovernanceActionIds"]
-
-SUBST = [("special", "Null", None), ("special", "Break", None), ("uint", z3.IntVal(7)), ("bytes", None), ("text", None), ("array", 0), ("map", 0), ("tag", 258), ("array", None), ("special", "Bool", z3.BoolVal(True))]
+SUBST = [("special", "Null", None), ("special", "Break", None), ("uint", 7), ("bytes", None), ("text", None), ("array", 0), ("map", 0), ("tag", 258), ("array", None), ("special", "Bool", True)]
+NULL, BREAK = ("special", "Null", None), ("special", "Break", None)
 
 
-def mutants(toks, U):
+def tok(E, t):
+    """concretise a corpus token description into a model token"""
+    if t[0] in ("uint", "nint", "int") and isinstance(t[1], int):
+        return (t[0], z3.IntVal(t[1]))
+    if t[0] in ("bytes", "text") and t[1] is None:
+        return (t[0], z3.Const("leaf_%s" % t[0], E.U))
+    if t[0] == "special" and t[1] == "Bool" and isinstance(t[2], bool):
+        return ("special", "Bool", z3.BoolVal(t[2]))
+    return t
+
+
+BROKEN = {k: ("broken", k) for k in ("uint", "nint", "bytes", "text", "array", "map", "tag", "special")}
+LEAVES = {"u": [("uint", 0)], "n": [("nint", -1)], "b": [("bytes", None)], "t": [("text", None)], "a": [("array", 0)], "m": [("map", 0)], "z": [NULL], "f": [("special", "Bool", False)],
+          "A": [("array", 1), ("uint", 0)], "I": [("array", None), BREAK]}
+
+
+def generic_corpus(tier):
+    full = []
+    kinds = "ubazt" if tier == "quick" else "unbtamzfAI"
+    for k in LEAVES:
+        full.append(LEAVES[k]); full.append([("tag", 258)] + LEAVES[k]); full.append([("tag", 24)] + LEAVES[k])
+    full += [[BREAK], [("array", None)], [("map", None)], [("tag", 258)], [("array", 1 << 63)], [("map", 1 << 63)]]
+    for n in ((1, 2, 3) if tier == "quick" else (1, 2, 3, 4)):
+        for k in kinds:
+            body = LEAVES[k] * n
+            full += [[("array", n)] + body, [("array", None)] + body + [BREAK], [("array", None)] + body + [NULL], [("array", None)] + body]
+            if n <= 2:
+                full += [[("tag", 258), ("array", n)] + body, [("tag", 258), ("array", None)] + body + [BREAK], [("array", n + 1)] + body, [("array", n)] + body + LEAVES[k]]
+    # discriminant-led groups
+    for d in range(0, 20):
+        for n in ((1, 2) if tier == "quick" else (1, 2, 3, 4, 5)):
+            for k in ("ub" if tier == "quick" else "ubatzmA"):
+                full.append([("array", n + 1), ("uint", d)] + LEAVES[k] * n)
+            full.append([("array", None), ("uint", d)] + LEAVES["u"] * n + [BREAK])
+        full.append([("array", 1), ("uint", d)])
+    # maps
+    for key in range(0, 26):
+        for k in ("ua" if tier == "quick" else "unbtamzfAI"):
+            full.append([("map", 1), ("uint", key)] + LEAVES[k])
+        full.append([("map", None), ("uint", key)] + LEAVES["u"] + [BREAK])
+    for k1 in "bta":
+        for k2 in "ubam":
+            full.append([("map", 1)] + LEAVES[k1] + LEAVES[k2])
+            full.append([("map", 2)] + LEAVES[k1] + LEAVES[k2] + LEAVES[k1] + LEAVES[k2])
+            full.append([("map", None)] + LEAVES[k1] + LEAVES[k2] + [BREAK])
+            full.append([("map", None)] + LEAVES[k1] + LEAVES[k2] + [NULL])
+    for a, b in ((0, 1), (1, 0), (0, 0), (1, 2)):
+        for k in "ua":
+            full.append([("map", 2), ("uint", a)] + LEAVES[k] + [("uint", b)] + LEAVES[k])
+    full += [[("map", 2), ("uint", 0)] + LEAVES["u"], [("map", 1), ("uint", 0)], [("map", 0)], [("array", 0)], [("array", None), NULL], [("map", None), NULL], [("array", None), BREAK], [("map", None), BREAK]]
+    # an item cut short / malformed inside (its head announces a kind, reading it fails) after every prefix of the shapes so far
+    base = list(full)
+    bk = ("bytes", "uint", "array") if tier == "quick" else tuple(BROKEN)
+    for s in base[::(3 if tier == "quick" else 1)]:
+        for j in range(0, min(len(s), 4)):
+            for k in bk:
+                full.append(s[:j] + [BROKEN[k]])
+    seen, out = set(), []
+    for s in full:
+        for j in range(1, len(s) + 1):
+            key = repr(s[:j])
+            if key not in seen:
+                seen.add(key)
+                out.append(("corpus", s[:j]))
+    return out
+
+
+def indefinite_variant(toks):
+    if toks and toks[0][0] in ("array", "map") and toks[0][1] is not None:
+        return [(toks[0][0], None)] + toks[1:] + [BREAK]
+    if len(toks) > 1 and toks[0][0] == "tag" and toks[1][0] in ("array", "map") and toks[1][1] is not None:
+        return [toks[0], (toks[1][0], None)] + toks[2:] + [BREAK]
+    return None
+
+
+def mutants(toks):
     out = []
     for k in range(len(toks)):
         out.append(("truncated after %d tokens" % k, toks[:k]))
@@ -33,8 +110,7 @@ def mutants(toks, U):
         for s in SUBST:
             if s[0] == toks[k][0] and s[0] not in ("array", "map", "special"):
                 continue
-            t = s if s[1] is not None or s[0] in ("array",) else (s[0], z3.Const("junk_%s" % s[0], U))
-            out.append(("token %d replaced by %s" % (k, s[:2]), toks[:k] + [t] + toks[k + 1:]))
+            out.append(("token %d replaced by %s" % (k, s[:2]), toks[:k] + [s] + toks[k + 1:]))
     for k, t in enumerate(toks):
         if t[0] in ("array", "map") and t[1] is not None:
             out.append(("declared length +1 at token %d" % k, toks[:k] + [(t[0], t[1] + 1)] + toks[k + 1:]))
@@ -43,78 +119,334 @@ def mutants(toks, U):
             out.append(("huge declared length at token %d" % k, toks[:k] + [(t[0], (1 << 63))] + toks[k + 1:]))
     iv = indefinite_variant(toks)
     if iv is not None:
-        out.append(("indefinite length", iv))
-        out.append(("indefinite length without break", iv[:-1]))
-        out.append(("indefinite length, break replaced by null", iv[:-1] + [("special", "Null", None)]))
-    out.append(("trailing token", toks + [("uint", z3.IntVal(1))]))
+        out += [("indefinite length", iv), ("indefinite length without break", iv[:-1]), ("indefinite length, break replaced by null", iv[:-1] + [NULL])]
+    out.append(("trailing token", toks + [("uint", 1)]))
+    for k, t in enumerate(toks):
+        kind = t[0] if t[0] in BROKEN else None
+        if t[0] == "item":
+            for bkind in ("bytes", "uint", "array", "map", "text"):
+                out.append(("nested item %d cut short (%s)" % (k, bkind), toks[:k] + [BROKEN[bkind]]))
+        elif kind:
+            out.append(("token %d cut short" % k, toks[:k] + [BROKEN[kind]]))
     return out
 
 
 def valid_streams(P, ty):
-    """valid token streams of ty, from its own serializer on a lazy value; for plain collections a hand-made family"""
-    if ty in COLLECTIONS:
-        U = z3.DeclareSort("U")
-        it = lambda j: ("item", z3.Const("elem%d" % j, U), "?")
-        return [[("array", 0)], [("array", 1), it(0)], [("array", 2), it(0), it(1)], [("tag", 258), ("array", 1), it(0)], [("array", None), it(0), ("special", "Break", None)]]
     E = Engine(P, max_loop=12)
     CM.install(E, target=ty)
     out = []
-    for o in E.explore("<%s as cbor_event::se::Serialize>::serialize" % ty, lambda: [R(VLazy("v", ty)), R(CM.VSer())], max_paths=60):
-        if o.kind == "return" and o.value.variant == "Ok":
-            t = list(VM.deref(E, o.args[1]).tokens)
-            if not (len(t) == 1 and t[0][0] == "item"):
-                out.append((t, list(o.pc)))
+    try:
+        for o in E.explore("<%s as cbor_event::se::Serialize>::serialize" % ty, lambda: [R(VLazy("v", ty)), R(CM.VSer())], max_paths=60):
+            if o.kind == "return" and o.value.variant == "Ok":
+                t = list(VM.deref(E, o.args[1]).tokens)
+                if not (len(t) == 1 and t[0][0] == "item"):
+                    out.append((t, list(o.pc)))
+    except (Unsupported, PathAbort, AttributeError, TypeError, IndexError, KeyError, ValueError):
+        return []
     return out
 
 
-def obligations(ctx):
-    P = ctx.P
-    ob = Obligation(ctx, "c02_e2_decoders_total_on_adversarial_tokens", "per type: every valid stream the serializer produces, and for each every truncation, single-token substitution (10 kinds), "
-                    "length off-by-one / huge, indefinite with and without break, trailing token; nested values opaque", ["<T as Deserialize>::deserialize"], fallback_native="e2n_c02_battery")
-    ob.cross_every = 50
-    agg = Engine(P)
-    covered, skipped, nmut = [], {}, 0
-    claim = set(C02_CLAIM)
-    for ty in list(MUST_COVER) + COLLECTIONS:
+def show(toks):
+    r = []
+    for t in toks[:10]:
+        if t[0] in ("array", "map"):
+            r.append("%s(%s)" % (t[0], "*" if t[1] is None else t[1]))
+        elif t[0] == "tag":
+            r.append("tag(%s)" % t[1])
+        elif t[0] == "special":
+            r.append(str(t[1]).lower())
+        elif t[0] in ("uint", "nint"):
+            r.append("%s(%s)" % t[:2])
+        elif t[0] == "item":
+            r.append("<%s>" % (t[2] if len(t) > 2 else "item"))
+        elif t[0] == "broken":
+            r.append("cut-short-%s" % t[1])
+        else:
+            r.append(t[0])
+    return " ".join(r)
+
+
+def render(toks):
+    """CBOR bytes of a stream of concrete tokens (None when it contains opaque nested items)"""
+    out = bytearray()
+    def head(major, n):
+        if n < 24: out.append((major << 5) | n)
+        elif n < 256: out.extend([(major << 5) | 24, n])
+        elif n < 65536: out.extend([(major << 5) | 25, n >> 8, n & 255])
+        elif n < (1 << 32): out.append((major << 5) | 26); out.extend(n.to_bytes(4, "big"))
+        else: out.append((major << 5) | 27); out.extend(n.to_bytes(8, "big"))
+    for t in toks:
+        k = t[0]
+        if k == "item": return None
+        if k == "broken":
+            out.extend({"uint": [0x19, 0x01], "nint": [0x39, 0x01], "bytes": [0x58, 0x20, 0x00], "text": [0x78, 0x20, 0x61], "array": [0x99, 0x01], "map": [0xb9, 0x01], "tag": [0xd9, 0x01], "special": [0xf9, 0x00]}[t[1]])
+            continue
+        v = t[1]
+        if z3.is_expr(v):
+            v = v.as_long() if z3.is_int_value(v) else None
+        if k == "uint": head(0, v)
+        elif k == "nint": head(1, -1 - v)
+        elif k == "bytes": out.append(0x40)
+        elif k == "text": out.append(0x60)
+        elif k in ("array", "map"):
+            if t[1] is None: out.append(0x9f if k == "array" else 0xbf)
+            else: head(4 if k == "array" else 5, t[1])
+        elif k == "tag": head(6, t[1])
+        elif k == "special":
+            out.append({"Null": 0xf6, "Break": 0xff, "Undefined": 0xf7}.get(t[1], 0xf5 if (t[2] is True or (z3.is_expr(t[2]) and z3.is_true(t[2]))) else 0xf4))
+    return bytes(out)
+
+
+def decoder_entries(P):
+    """(type name, def name) of every Deserialize impl in the MIR"""
+    out = {}
+    for d in P.fns:
+        if re.search(r"::deserialize(#\d+)?$", d):
+            ty, tr = P.impl_of(d)
+            fn = P.fns[d]
+            # the crate's CBOR trait (serde's derive has the same last segment: told apart by the reader parameter)
+            if ty and tr and last_seg(tr.split("<")[0]) == "Deserialize" and "$" not in ty and len(ty) > 1 and fn.params and "Deserializer<" in fn.params[0][1]:
+                out.setdefault(ty, d)
+    return out
+
+
+def run_decoder(P, ty, entry, streams, max_paths=80):
+    """-> (runs, problems[(what, tokens)], unsupported reason | None, truncated)"""
+    probs, n, trunc, paths = [], 0, 0, 0
+    for what, toks, pc in streams:
+        D = Engine(P, max_loop=40)
+        CM.install(D, target=ty, adversarial=True)
+        D.base = list(pc)
+        m = [tok(D, t) for t in toks]
+        n += 1
         try:
-            streams = valid_streams(P, ty)
-            if not streams:
-                skipped[ty] = "no valid stream"; continue
-            probs = []
-            cnt = 0
-            for st in streams:
-                toks, pc = (st, []) if ty in COLLECTIONS else st
-                for what, m in mutants(toks, agg.U):
-                    D = Engine(P, max_loop=40)
-                    CM.install(D, target=ty)
-                    D.U = agg.U
-                    D.base = list(pc)
-                    cnt += 1
-                    for d in D.explore("<%s as Deserialize>::deserialize" % ty, lambda: [R(CM.VDe(m), "raw")], max_paths=60):
-                        if d.kind in ("panic", "unreachable"):
-                            probs.append("%s: decoder panics on [%s] of %s: %s" % (ty, what, [(t[0], t[1] if t[0] in ("array", "map", "tag") else "") for t in toks][:6], d.msg[:120]))
-                    agg.stats["paths"] += D.stats["paths"]; agg.stats["functions"] |= D.stats["functions"]
-            if ty not in claim:
-                skipped[ty] = "not claimed" + (": " + probs[0][:100] if probs else " (executes cleanly)")
-                continue
-            covered.append("%s(%d)" % (ty, cnt))
-            nmut += cnt
-            for p_ in probs[:3]:
-                ob.violation(p_)
+            for d in D.explore(entry, lambda: [R(CM.VDe(list(m)), "raw")], max_paths=max_paths):
+                if d.kind in ("panic", "unreachable"):
+                    probs.append((what, toks, d.msg[:160]))
+                elif d.kind == "bound":
+                    trunc += 1
         except Unsupported as e:
-            skipped[ty] = str(e)[:120]
+            if "more than" in str(e) and "paths" in str(e):
+                trunc += 1
+            else:
+                return n, probs, "%s (on %s)" % (str(e)[:140], show(toks)), trunc, paths
         except PathAbort as e:
-            skipped[ty] = "path abort " + e.msg[:80]
-        except (AttributeError, TypeError, IndexError, KeyError, ValueError) as e:
-            skipped[ty] = "engine error %r" % (e,)
-    missing = [t for t in C02_CLAIM if not any(c.startswith(t + "(") for c in covered)]
+            return n, probs, "path abort %s (on %s)" % (e.msg[:100], show(toks)), trunc, paths
+        except (AttributeError, TypeError, IndexError, KeyError, ValueError, AssertionError, RecursionError) as e:
+            return n, probs, "engine error %r (on %s)" % (e, show(toks)), trunc, paths
+        paths += D.stats["paths"]
+    return n, probs, None, trunc, paths
+
+
+def worker(mir, src, tier, tys):
+    P = Program(open(mir).read(), src)
+    ents = decoder_entries(P)
+    corpus = [(w, t, []) for w, t in generic_corpus(tier)]
+    res = {}
+    for ty in tys:
+        t0 = time.time()
+        streams = list(corpus)
+        nvalid = 0
+        for toks, pc in valid_streams(P, ty):
+            nvalid += 1
+            for what, m in mutants(toks):
+                streams.append((what + " of " + show(toks), m, pc))
+        n, probs, unsup, trunc, paths = run_decoder(P, ty, "<%s as Deserialize>::deserialize" % ty if ty in ents else ty, streams)
+        res[ty] = {"runs": n, "valid_shapes": nvalid, "truncated": trunc, "paths": paths, "unsupported": unsup, "s": round(time.time() - t0, 1),
+                   "problems": [{"what": w, "tokens": show(t), "bytes": (render(t).hex() if render(t) is not None else None), "msg": msg} for w, t, msg in sorted(probs, key=lambda p_: len(p_[1]))[:12]], "nproblems": len(probs)}
+    return res
+
+
+# types whose decoder the engine is expected to execute on the whole corpus (a regression here is reported as inconclusive, never silently dropped)
+CLAIM = [
+    "Address", "Anchor", "AnchorDataHash", "AssetName", "AssetNames", "Assets", "AuxiliaryData", "AuxiliaryDataHash", "AuxiliaryDataSet", "BigInt", "BigNum", "Block",
+    "BlockHash", "BootstrapWitness", "BootstrapWitnesses", "ByronAddressType", "Certificate", "CertificateEnum", "Certificates", "Committee", "CommitteeColdResign",
+    "CommitteeHotAuth", "Constitution", "ConstrPlutusData", "CostModel", "Costmdls", "Credential", "Credentials", "DRep", "DRepDeregistration", "DRepEnum",
+    "DRepRegistration", "DRepUpdate", "DRepVotingThresholds", "DataHash", "DataOption", "Ed25519KeyHash", "Ed25519KeyHashes", "Ed25519Signature", "ExUnitPrices",
+    "ExUnits", "ExtendedAddr", "FixedTransaction", "FixedBlock", "FixedTransactionBodies", "FixedTransactionBody", "FixedTxWitnessesSet", "FixedVersionedBlock",
+    "GeneralTransactionMetadata", "GenesisDelegateHash", "GenesisHash", "GenesisHashes", "GenesisKeyDelegation", "GovernanceAction", "GovernanceActionId",
+    "HardForkInitiationAction", "Header", "HeaderBody", "InfoAction", "Int", "Ipv4", "Ipv6", "KESSignature", "KESVKey", "Language", "Languages", "MIRToStakeCredentials",
+    "MetadataList", "MetadataMap", "Mint", "MintAssets", "MoveInstantaneousReward", "MoveInstantaneousRewardsCert", "MultiAsset", "MultiHostName", "NativeScript",
+    "NativeScriptEnum", "NativeScripts", "NetworkId", "NewConstitutionAction", "NoConfidenceAction", "Nonce", "OperationalCert", "ParameterChangeAction", "PlutusData",
+    "PlutusDataEnum", "PlutusList", "PlutusMap", "PlutusScript", "PlutusScripts", "PoolMetadata", "PoolMetadataHash", "PoolParams", "PoolRegistration", "PoolRetirement",
+    "PoolVotingThresholds", "ProposedProtocolParameterUpdates", "ProtocolParamUpdate", "ProtocolVersion", "Redeemer", "RedeemerTag", "RedeemerTagKind", "Redeemers",
+    "Relay", "RelayEnum", "Relays", "RewardAddress", "RewardAddresses", "ScriptAll", "ScriptAny", "ScriptDataHash", "ScriptHash", "ScriptHashes", "ScriptNOfK",
+    "ScriptPubkey", "ScriptRef", "ScriptRefEnum", "SingleHostAddr", "SingleHostName", "StakeAndVoteDelegation", "StakeDelegation", "StakeDeregistration",
+    "StakeRegistration", "StakeRegistrationAndDelegation", "StakeVoteRegistrationAndDelegation", "Strings", "TimelockExpiry", "TimelockStart", "Transaction",
+    "TransactionBodies", "TransactionBody", "TransactionHash", "TransactionInput", "TransactionInputs", "TransactionMetadatum", "TransactionMetadatumEnum",
+    "TransactionMetadatumLabels", "TransactionOutput", "TransactionOutputs", "TransactionUnspentOutput", "TransactionWitnessSet", "TransactionWitnessSets",
+    "TreasuryWithdrawals", "TreasuryWithdrawalsAction", "UnitInterval", "Update", "UpdateCommitteeAction", "VRFCert", "VRFKeyHash", "VRFVKey", "Value", "VersionedBlock",
+    "Vkey", "Vkeys", "Vkeywitness", "Vkeywitnesses", "VoteDelegation", "VoteRegistrationAndDelegation", "Voter", "VoterEnum", "VotingProcedure", "VotingProcedures",
+    "VotingProposal", "VotingProposals", "Withdrawals", "legacy_address::cbor::util::raw_with_crc32",
+]
+# free decoding helpers with the same token interface
+EXTRA_ENTRIES = ["legacy_address::cbor::util::raw_with_crc32"]
+
+
+def native_vals(ty, hexbytes):
+    name = ty.encode()
+    b = bytes.fromhex(hexbytes)
+    return [[len(name)]] + [[c] for c in name] + [[len(b) & 255, len(b) >> 8]] + [[c] for c in b]
+
+
+def obligations(ctx):
+    decoders_obligation(ctx)
+    wrappers_obligation(ctx)
+
+
+def decoders_obligation(ctx):
+    from prove import Obligation
+    P = ctx.P
+    ents = decoder_entries(P)
+    tys = sorted(ents)
+    ob = Obligation(ctx, "c02_e2_decoders_total_on_adversarial_tokens", "", ["<T as Deserialize>::deserialize for every impl in the crate"], fallback_native="e2n_c02_battery")
+    build = os.environ.get("VERIF_BUILD_DIR", os.path.join(os.path.dirname(os.path.dirname(os.path.dirname(os.path.abspath(__file__)))), ".build"))
+    mir, src = os.path.join(build, "mir.txt"), os.path.join(build, "mir-src")
+    nw = 14
+    # longest-processing-time-first packing, costs from the previous run when there is one (set-like collections dominate)
+    prev = {}
+    try:
+        prev = {t: r["s"] for t, r in json.load(open(os.path.join(build, "c02_last.json"))).items()}
+    except Exception:
+        pass
+    cost = lambda t: prev.get(t, 30.0 if t.endswith("s") else 5.0)
+    chunks, load = [[] for _ in range(nw)], [0.0] * nw
+    for t in sorted(tys + EXTRA_ENTRIES, key=cost, reverse=True):
+        k = load.index(min(load))
+        chunks[k].append(t)
+        load[k] += cost(t)
+    procs = [subprocess.Popen([sys.executable, os.path.abspath(__file__), "--worker", mir, src, ctx.tier, ",".join(c)], stdout=subprocess.PIPE, stderr=subprocess.PIPE, text=True) for c in chunks if c]
+    res = {}
+    for p in procs:
+        o, e = p.communicate()
+        try:
+            res.update(json.loads(o.strip().split("\n")[-1]))
+        except Exception:
+            ob.fail("decoder worker crashed: " + e[-300:])
+    covered = sorted(t for t, r in res.items() if r["unsupported"] is None)
+    outside = {t: r["unsupported"] for t, r in res.items() if r["unsupported"] is not None}
+    runs = sum(r["runs"] for r in res.values())
+    # native pre-screening: the shortest renderable counterexample that reproduces goes first
+    cands = []
+    for t in sorted(res):
+        for pr in res[t]["problems"]:
+            cands.append((0 if pr["bytes"] else 1, len(pr["bytes"] or ""), t, pr))
+    cands.sort(key=lambda c_: c_[:3])
+    confirmed = None
+    if ctx.native_replay is not None:
+        tried = 0
+        for _, _, t, pr in cands:
+            if not pr["bytes"] or tried >= 12:
+                continue
+            tried += 1
+            rr = ctx.native_replay("e2n_c02_decode", native_vals(t, pr["bytes"]), "dev")
+            ctx.native_runs += 1
+            if rr.get("outcome") == "panic":
+                confirmed = (t, pr)
+                break
+    order = ([(0, 0, confirmed[0], confirmed[1])] if confirmed else []) + [c_ for c_ in cands if not confirmed or c_[3] is not confirmed[1]]
+    seen_t = set()
+    for _, _, t, pr in order:
+        if t in seen_t:
+            continue
+        seen_t.add(t)
+        ob.problems.append(("cex", "%s: decoder panics on [%s] (%s)%s: %s" % (t, pr["tokens"], pr["what"], " = bytes " + pr["bytes"] if pr["bytes"] else "", pr["msg"]), None,
+                            {"type": t, "bytes": pr["bytes"] if confirmed and pr is confirmed[1] else None}))
+    missing = [t for t in CLAIM if t not in covered]
     if missing:
-        ob.fail("types expected to be covered could not be executed: %s" % {t: skipped.get(t, "?") for t in missing})
-    ob.bound += " %d adversarial streams over %d types: %s. Not claimed / outside reach: %s" % (nmut, len(covered), ", ".join(covered), ", ".join(sorted(skipped)))
-    ob.queries += nmut
-    ctx.log("  [E2] decoder totality: %d types, %d adversarial streams; skipped %s" % (len(covered), nmut, {k: v[:70] for k, v in skipped.items()}))
-    ob.covered, ob.skipped = covered, skipped
+        ob.fail("decoders expected to be covered could not be executed: %s" % {t: outside.get(t, "absent") for t in missing})
+    ob.queries += runs
+    ob.bound = ("%d decoders x (type-agnostic corpus of %d token streams with all their prefixes + mutants of %d own valid encodings) = %d symbolic executions; nested decoders opaque-adversarial; "
+                "arrays <= 5 elements, maps <= 2 entries. Covered: %s. Outside the engine's reach (not claimed): %s"
+                % (len(covered), len(generic_corpus(ctx.tier)), sum(r["valid_shapes"] for r in res.values()), runs, ", ".join(covered), "; ".join("%s [%s]" % (t, v[:60]) for t, v in sorted(outside.items()))))
+    ctx.log("  [E2] decoder totality: %d/%d decoders executed, %d runs, slowest %s; outside: %s" % (len(covered), len(res), runs, sorted(((r["s"], t) for t, r in res.items()), reverse=True)[:3], {k: v[:80] for k, v in outside.items()}))
+    try:
+        json.dump(res, open(os.path.join(build, "c02_last.json"), "w"), indent=1)
+    except Exception:
+        pass
+    agg = Engine(P)
+    agg.stats["paths"] = sum(r["paths"] for r in res.values())
+    ob.res = res
+
+    def to_native(model, info):
+        if not info or not info.get("bytes"):
+            raise ValueError("no byte-exact rendering of the token counterexample reproduces; falling back to the API-level battery")
+        return "e2n_c02_decode", native_vals(info["type"], info["bytes"])
+    ob.finish(agg, cex_to_native=to_native)
+
+
+if __name__ == "__main__" and len(sys.argv) > 1 and sys.argv[1] == "--worker":
+    _, _, mir_, src_, tier_, tys_ = sys.argv
+    print(json.dumps(worker(mir_, src_, tier_, tys_.split(","))))
+
+
+# ---------------------------------------------------------------- (b) public text / bytes entry wrappers
+WRAPPER_RE = re.compile(r"::(from_hex|from_bytes|from_json|from_bech32|from_base58|from_normal_bytes|from_extended_bytes|from_128_xprv|from_bip39_entropy)(#\d+)?$")
+
+
+def wrapper_entries(P):
+    out = []
+    for d, fn in P.fns.items():
+        if WRAPPER_RE.search(d) and "{closure" not in d and "::tests::" not in d and fn.params:
+            out.append(d)
+    return sorted(out)
+
+
+def run_wrapper(P, d):
+    """-> (status, detail): status in ok | panic | unsupported"""
+    fn = P.fns[d]
+    E = Engine(P, max_loop=6)
+    # external decoders and reader construction only: anything else without a model keeps the wrapper outside the claim
+    E.havoc_external = r"^(hex::|bech32::|<.* as bech32::|serde_json::|<.* as serde::|base58|crate::legacy_address::base58|std::io::Cursor::<|<cbor_event::de::Deserializer<.*> as From<|cbor_event::de::Deserializer::<.*>::from|<.* as (std::convert::)?(From|Into)<.*JsError|<str as ToString>|<.*Error as ToString>::to_string|<.* as std::string::ToString>::to_string|std::string::String::|<std::string::String as|core::str::|<str as|std::fmt::|alloc::fmt::format|<.* as FromBase32>::from_base32|<.* as bech32::FromBase32>::from_base32|<A as Asymmetric\w+>::|<A as \w+>::)"
+    CM.install(E, target=None, adversarial=True)
+
+    def opaque_deserialize(E_, c, args):
+        dd = E_.P.resolve(c)
+        ret = E_.P.fns[dd].ret if dd in E_.P.fns else None
+        if ret is None:
+            return NotImplemented
+        return E_.typed_result(ret, "deserialize@%d" % len(E_.trace), [E_.as_u(a) for a in args])
+    E.extra_intrinsics[r"(as (?:[\w:]*::)?Deserialize>::deserialize|::deserialize(::<.*>)?$)"] = opaque_deserialize
+    E.extra_intrinsics[r"(^|::)\w+::from_bytes$"] = lambda E_, c, a: NotImplemented
+    probs = []
+    try:
+        outs = E.explore(d, lambda: [VLazy("arg%d" % i, t) if not t.strip().startswith("&") else R(VLazy("arg%d" % i, re.sub(r"^&\s*('\w+\s+)?(mut )?", "", t.strip()))) for i, (_, t) in enumerate(fn.params)], max_paths=300)
+        for o in outs:
+            if o.kind in ("panic", "unreachable"):
+                probs.append(o.msg[:200])
+    except Unsupported as e:
+        return "unsupported", str(e)[:200]
+    except PathAbort as e:
+        return "unsupported", "path abort " + e.msg[:120]
+    except (AttributeError, TypeError, IndexError, KeyError, ValueError, AssertionError, RecursionError) as e:
+        return "unsupported", "engine error %r" % (e,)
+    if probs:
+        return "panic", probs[0]
+    return "ok", "%d paths" % len(outs)
+
+
+def wrappers_obligation(ctx):
+    from prove import Obligation
+    P = ctx.P
+    ob = Obligation(ctx, "c02_e2_entry_wrappers_total", "", ["T::from_hex / from_bytes / from_json / from_bech32 / from_base58 wrappers found in the MIR"], fallback_native="e2n_c02_wrappers")
+    ents = wrapper_entries(P)
+    ok_, outside, bad = [], {}, {}
+    for d in ents:
+        st, det = run_wrapper(P, d)
+        label = "%s::%s" % (P.impl_of(d)[0] or "?", re.sub(r"#\d+$", "", d.split("::")[-1]))
+        if st == "ok":
+            ok_.append(label)
+        elif st == "panic":
+            bad[label] = det
+        else:
+            outside[label] = det
+    ob.queries += len(ents)
+    for label, det in sorted(bad.items())[:1]:
+        ob.violation("%s can panic: %s (%d wrappers affected: %s)" % (label, det, len(bad), ", ".join(sorted(bad))[:300]))
+    ob.bound = ("%d wrapper bodies executed on lazily initialised arguments; external decoders (hex, bech32, base58, serde_json, cbor reader construction) and nested deserialize are uninterpreted functions "
+                "whose Result forks both ways. Executed: %d (%s ...). Outside the engine's reach (not claimed): %d (%s)" % (len(ents), len(ok_) + len(bad), ", ".join(sorted(set(ok_))[:25]), len(outside),
+                "; ".join("%s [%s]" % (k, v[:50]) for k, v in sorted(outside.items())[:40])))
+    ctx.log("  [E2] entry wrappers: %d ok, %d can panic, %d outside (%s)" % (len(ok_), len(bad), len(outside), {k: v[:60] for k, v in list(outside.items())[:6]}))
+    ob.bad, ob.outside, ob.ok = bad, outside, ok_
+    agg = Engine(P)
     ob.finish(agg)
-
-
-C02_CLAIM = []
